@@ -43,6 +43,7 @@ type harnessSpec struct {
 	Prefer    string
 	Reach     []string
 	Stubs     [][2]string
+	Noops     []string
 	Replay    bool
 	Assume    []string
 	Desc      string
@@ -100,10 +101,14 @@ func loadSpecs(prop string) ([]*harnessSpec, error) {
 		}
 		pkgRel := ""
 		var fileStubs [][2]string
+		var fileNoops []string
 		for _, cg := range af.Comments {
 			for _, c := range cg.List {
 				if strings.HasPrefix(c.Text, "//verif:pkg ") {
 					pkgRel = strings.TrimSpace(c.Text[len("//verif:pkg "):])
+				}
+				if strings.HasPrefix(c.Text, "//verif:noop ") {
+					fileNoops = append(fileNoops, strings.TrimSpace(c.Text[len("//verif:noop "):]))
 				}
 				if strings.HasPrefix(c.Text, "//verif:stub ") {
 					fs := strings.Fields(c.Text[len("//verif:stub "):])
@@ -125,7 +130,7 @@ func loadSpecs(prop string) ([]*harnessSpec, error) {
 				if !strings.HasPrefix(c.Text, "//verif:harness ") {
 					continue
 				}
-				s := &harnessSpec{Func: fd.Name.Name, PkgRel: pkgRel, File: f, Tiers: map[string]bool{}, Replay: true, Stubs: fileStubs, MaxSwitch: -1}
+				s := &harnessSpec{Func: fd.Name.Name, PkgRel: pkgRel, File: f, Tiers: map[string]bool{}, Replay: true, Stubs: fileStubs, Noops: fileNoops, MaxSwitch: -1}
 				for _, kv := range splitDirective(c.Text[len("//verif:harness "):]) {
 					k, v, _ := strings.Cut(kv, "=")
 					v = strings.Trim(v, "\"")
@@ -471,6 +476,9 @@ func cmdCheck(args []string) int {
 				return 2
 			}
 			eng.Stub(orig, repl)
+		}
+		for _, n := range s.Noops {
+			eng.NoopFuncs[n] = true
 		}
 		h := &symgo.Harness{Name: s.Name, Fn: fn, Bounds: s.Bounds, MaxPaths: s.MaxPaths, MaxSteps: s.MaxSteps, MaxFanout: s.MaxFanout,
 			MaxSwitches: s.MaxSwitch, PreferInt: s.Prefer == "int", Reach: s.Reach, Tier: *tier}
